@@ -30,7 +30,7 @@ def run(ck):
                "nested struct/array or explicit attribute; distinct by tree")
     ck.trusted = ["Lean kernel", "axioms: propext, Classical.choice, Quot.sound", "WGSL layout transcription (Layout.spec*)",
                   "Go harness (generator, IR/SPIR-V readers)"]
-    proved = ck.prove(["Naga.Props.C07"])
+    proved = ck.prove(["Naga.Props.C07", "Naga.Props.GlslLayout"])
     if not proved:
         ck.tie_broken("theorems", "Naga.Props.C07 no longer checks", str(ck.proof_failed))
     if not ck.build_harness() or not ck.driver():
